@@ -83,6 +83,31 @@ Fixpoint g_fill_maps (fuel : nat) (matchf : pattern -> bool) (gm : bytes -> opti
       else g_fill_maps fuel matchf gm r o
   end.
 
+(* fill: the stack from the top *)
+Definition g_fill_list (fuel : nat) (gm : bytes -> option (list assignment)) (cf isdir : bool) (path : bytes)
+           (l : plist) (o : filled) : option filled :=
+  match strip_base (l_base l) cf path (basename_pos path) with
+  | None => Some o
+  | Some (rel, bpos) => g_fill_maps fuel (fun p => matches_rrp p rel bpos isdir cf) gm (rev (l_maps l)) o
+  end.
+Fixpoint g_fill (fuel : nat) (gm : bytes -> option (list assignment)) (cf isdir : bool) (path : bytes)
+         (stack : list plist) (o : filled) : option filled :=
+  match stack with
+  | [] => Some o
+  | l :: r => match g_fill_list fuel gm cf isdir path l o with
+              | Some o1 => g_fill fuel gm cf isdir path r o1
+              | None => None
+              end
+  end.
+
+Definition git_attrs (global info : bytes) (files : list (bytes * bytes)) (cf : bool) (path : bytes) (isdir : bool)
+  : option filled :=
+  let s := make_setup global info files path in
+  let stack := search_order s in                       (* = git's stack from the top *)
+  let tops := map l_maps stack in
+  let fuel := S (length (flat_map macro_defs tops)) in
+  g_fill fuel (g_macro tops) cf isdir path stack [].
+
 (* attr_name_valid *)
 Definition g_name_char (ch : byte) : bool :=
   beqb ch cDASH || beqb ch cDOT || beqb ch cUNDER ||
